@@ -47,13 +47,31 @@ def permute(rng, raw):
         n['q'] = [permute(rng, c) for c in n['q']]
     return n
 
-def mark(rng, raw, kw):
+def mark(rng, raw, kw, which=None):
     nodes = []
     walk_nodes(raw, nodes.append)
     cands = [n for n in nodes if not (n.get('t') and n['t']['k'] != 'plain')]
+    # prefer containers that sit below a node with an explicit delete flag and have containers below themselves
+    below = []
+    def rec(n, under):
+        kwn = n.get('kw') or {}
+        if under and ('m' in n or 'q' in n) and any(('m' in c or 'q' in c) for c in (n.get('q') or [x for _, x in n.get('m', [])])):
+            below.append(n)
+        u = under or kwn.get('del') is not None
+        for c in n.get('q', []): rec(c, u)
+        for _, c in n.get('m', []): rec(c, u)
+    rec(raw, False)
+    below = [n for n in below if any(n is c for c in cands)]
+    if which is not None:
+        if which >= len(below):
+            return False
+        cands = [below[which]]
+    elif below and rng.random() < 0.7:
+        cands = below
     n = rng.choice(cands)
     n['kw'] = dict(kw, **(n.get('kw') or {}))
     n['t'] = {'k': 'plain'}
+    return True
 
 def unordered(v):
     if isinstance(v, dict):
@@ -65,7 +83,7 @@ def unordered(v):
 
 class C15(MergeFamProp):
     ID = 'C15'
-    VOCAB = G.Vocab(prio=True, delete=True, meta=True)
+    VOCAB = G.Vocab(prio=True, delete=True, meta=True, unsafe=True, new=True)
     NMAX = 4
     RULE = ('merge sequences of 1-4 documents over priority / !del / !merge / metadata tags; each is built twice, with the last '
             'document repeated (when it has no explicit !del), with an empty mapping inserted at a random position, with the keys '
@@ -78,6 +96,7 @@ class C15(MergeFamProp):
         return [
             D(M({'a': M({'l': Q([M({'p': S(0)}, kw={'prio': 1})])})}), M({'a': M({'l': Q([M({'s': S(5)})])})})),      # D13 witness (mark root !unsafe)
             D(M({'a': Q([S(1), S(2)])}), M({'a': Q([S(1, kw={'prio': 1}), S(2)])}), M({'a': Q([S(8), S(9)])})),
+            D(M({'a': M({'b': M({'c': M({'l': Q([S(1), S(2), S(3)])})})})}), M({'a': M({'b': M({'c': M({'l': Q([S(9)])})})}, kw={'del': False})}), vseed=7),
         ]
 
     def gen_cases(self, rng, n, tier):
@@ -101,6 +120,12 @@ class C15(MergeFamProp):
         md = copy.deepcopy(docs)
         mark(rng, md[j]['raw'], rng.choice([{'safe': False}, {'new': True}]))
         v['flag'] = md
+        # every container below an explicit delete flag (up to three per document) marked !unsafe in turn
+        for j2 in range(len(docs)):
+            for w in range(3):
+                m2 = copy.deepcopy(docs)
+                if mark(rng, m2[j2]['raw'], {'safe': False}, which=w):
+                    v[f'flag{j2}_{w}'] = m2
         mr = copy.deepcopy(docs)
         jr = rng.randrange(len(docs))
         if not mr[jr]['raw'].get('kw'):
@@ -130,18 +155,32 @@ class C15(MergeFamProp):
                 if ('ok' in b) != ('ok' in x) or ('ok' in b and unordered(strip_ids(b['ok'])) != unordered(strip_ids(x['ok']))):
                     return f'perm: permuting keys changed more than key order: {json.dumps(strip_ids(b))[:120]} vs {json.dumps(strip_ids(x))[:120]}'
                 continue
-            if name in ('flag', 'flagroot') and 'ok' not in b:
+            if name.startswith('flag') and 'ok' not in b:
                 continue
             if name == 'empty' and b.get('err') == 'merge' and 'notnew' in b:
                 continue
             d = first_diff(strip_ids(b), strip_ids(x))
             if d:
                 what = {'twice': 'building the same sources twice', 'repeat': 'repeating the last document', 'empty': 'inserting an empty mapping document',
-                        'flag': 'marking a node !unsafe / !new', 'flagroot': 'marking a document root !unsafe / !new'}[name]
+                        'flag': 'marking a node !unsafe / !new', 'flagroot': 'marking a document root !unsafe / !new'}.get(name, 'marking a container below an explicit !del / !merge node !unsafe')
                 return f'{name}: {what} changed the result: {d}'
         return None
 
+    @staticmethod
+    def has_alias_keys(docs):
+        hit = []
+        def f(n):
+            ks = [sc_py(k) for k, _ in n.get('m', [])]
+            ints = [k for k in ks if isinstance(k, int) and not isinstance(k, bool)]
+            if any(k < 0 for k in ints) and any(k >= 0 for k in ints):
+                hit.append(1)
+        for d in docs:
+            walk_nodes(d['raw'], f)
+        return bool(hit)
+
     def finding_key(self, case, desc):
+        if desc and (desc.startswith('perm:') or desc.startswith('repeat:')) and self.has_alias_keys(case['docs']):
+            return 'alias-list-index'
         if desc and desc.startswith('repeat:') and mixed_list_prio(case['docs']):
             return 'repeat-list-index-shift'
         return None
